@@ -10,6 +10,7 @@ The handlers never fail on any argument the framework can hand them (that is the
 by `case`, runs the application, and returns the observation: status, and - for a 5xx - the innermost
 cherrypy frame and the exception class taken from the live traceback at logging time.
 """
+import atexit
 import io
 import logging
 import os
@@ -65,7 +66,9 @@ def describe_exc(et, ev, tb):
             inner = (os.path.splitext(rel)[0].replace(os.sep, '.'), co.co_name)
         tb = tb.tb_next
     mod, func = inner or last or ('?', '?')
-    return {'module': mod, 'function': func, 'exc': et.__name__,
+    # a ValueError born inside urllib.parse / ipaddress = urllib refusing the Host-derived netloc
+    netloc = et is ValueError and last is not None and last[0] in ('parse', 'ipaddress')
+    return {'module': mod, 'function': func, 'exc': et.__name__, 'netloc': netloc,
             'mro': [c.__name__ for c in et.__mro__ if c not in (object, BaseException)],
             'msg': str(ev)[:160]}
 
@@ -277,6 +280,7 @@ def setup():
     cherrypy.log.error_log.propagate = False
     app.log.error_log.propagate = False
     _state.update(app=app, tmp=tmp, static=static, sess=sess, cap=cap, pid=os.getpid())
+    atexit.register(teardown)
     return _state
 
 
@@ -365,6 +369,6 @@ def signature(obs):
     sig = '%s:%s:%s' % (e['module'], e['function'], e['exc'])
     # urllib's complaints about the Host-derived netloc get their own mark, so that any other ValueError raised
     # in the same function is a different signature
-    if e['exc'] == 'ValueError' and ('IPv6' in e.get('msg', '') or 'IPv4' in e.get('msg', '')):
+    if e.get('netloc'):
         sig += ':netloc'
     return sig
